@@ -472,6 +472,18 @@ func fixedHarmless() []mutant {
 		{Harmless: true, ID: "h-r16-C18n-fixed", Patch: "seeded/C18n-plumb-poll-helper-skipped-for-empty/fixed.diff"},
 		{Harmless: true, ID: "h-r16-C19n-fixed", Patch: "seeded/C19n-plumb-newmergedindex-deferred-close-reads-nil-result/fixed.diff"},
 		{Harmless: true, ID: "h-r16-C20n-fixed", Patch: "seeded/C20n-plumb-close-chains-to-segmentbase-close/fixed.diff"},
+		{Harmless: true, ID: "h-r19-C01q-fixed", Patch: "seeded/C01q-refac-postings-iterator-locs-uncut/fixed.diff"},
+		{Harmless: true, ID: "h-r19-C02q-fixed", Patch: "seeded/C02q-refac-stored-doc-writer-unstable-sort/fixed.diff"},
+		{Harmless: true, ID: "h-r19-C05q-fixed", Patch: "seeded/C05q-refac-stored-docs-merger-copy-returns-zero/fixed.diff"},
+		{Harmless: true, ID: "h-r19-C07q-fixed", Patch: "seeded/C07q-refac-postings-iterator-clean-flag/fixed.diff"},
+		{Harmless: true, ID: "h-r19-C08q-fixed", Patch: "seeded/C08q-refac-enumerator-cursors-empty-key/fixed.diff"},
+		{Harmless: true, ID: "h-r19-C09q-fixed", Patch: "seeded/C09q-refac-docvalues-writer-start-sampled-late/fixed.diff"},
+		{Harmless: true, ID: "h-r19-C10q-fixed", Patch: "seeded/C10q-refac-stored-fields-steps-rejected-batch/fixed.diff"},
+		{Harmless: true, ID: "h-r19-C11q-fixed", Patch: "seeded/C11q-refac-stored-doc-reader-early-stop-skips-close/fixed.diff"},
+		{Harmless: true, ID: "h-r19-C12q-fixed", Patch: "seeded/C12q-refac-synonymslist-bind-clear-on-read-only/fixed.diff"},
+		{Harmless: true, ID: "h-r19-C13q-fixed", Patch: "seeded/C13q-refac-thesaurus-writer-drops-by-segment/fixed.diff"},
+		{Harmless: true, ID: "h-r19-C15q-fixed", Patch: "seeded/C15q-refac-vector-field-merger-wrong-numbering/fixed.diff"},
+		{Harmless: true, ID: "h-r19-C19q-fixed", Patch: "seeded/C19q-refac-newfilledindex-deferred-close-reads-nil/fixed.diff"},
 		{Harmless: true, ID: "h-r17-C01p-fixed", Patch: "seeded/C01p-perf-realloc-tally-skips-locations/fixed.diff"},
 		{Harmless: true, ID: "h-r17-C02p-fixed", Patch: "seeded/C02p-perf-stored-meta-uvarint-single-byte/fixed.diff"},
 		{Harmless: true, ID: "h-r17-C03p-fixed", Patch: "seeded/C03p-perf-docvalue-lookup-cursor/fixed.diff"},
